@@ -187,44 +187,83 @@ def snap_best(r, model, spec, slack=0):
     return a
 
 
+def tv(x):
+    """TYPE-aware canonical form of one result value: None / bool / int / float / str are told apart by their exact
+    type (True is not 1, 45 is not 45.0), an enum member by class, name, value and identity with the documented
+    psutil constant; anything else is reported by its type name and can equal nothing the model says"""
+    import enum
+    import psutil
+    if x is None:
+        return None
+    if type(x) is bool:
+        return T("True" if x else "False")      # same node as props/C19.norm gives the model's booleans (True == 1 in Python)
+    if isinstance(x, enum.Enum):
+        if getattr(psutil, x.name, None) is not x:
+            return T("EnumNotTheDocumentedConstant", type(x).__name__, x.name)
+        return T("Enum", B(type(x).__name__), B(x.name), int(x))
+    if type(x) is int:
+        return x
+    if type(x) is float:
+        return fl(x)
+    if type(x) is str:
+        return B(os.fsencode(x))
+    return T("Type", type(x).__name__, repr(x)[:60])
+
+
+def nt_ok(r, name, fields):
+    """named tuple class and field order as documented"""
+    import psutil
+    cls = type(r)
+    return (cls is getattr(psutil._common, name, None) and cls.__name__ == name and tuple(cls._fields) == fields
+            and tuple(r) == tuple(getattr(r, f) for f in fields))
+
+
 def conv_temps(d):
+    if type(d) is not dict:
+        return T("Type", type(d).__name__)
     out = []
     for k in sorted(d, key=os.fsencode):
         rows = []
+        if type(d[k]) is not list:
+            return T("Type", type(d[k]).__name__)
         for r in d[k]:
-            if tuple(r) != (r.label, r.current, r.high, r.critical):
-                return T("FieldOrderMismatch")
-            rows.append([B(os.fsencode(r.label)), fl(r.current), fl(r.high), fl(r.critical)])
-        out.append([B(os.fsencode(k)), rows])
+            if not nt_ok(r, "shwtemp", ("label", "current", "high", "critical")):
+                return T("WrongClass", type(r).__name__)
+            rows.append([tv(r.label), tv(r.current), tv(r.high), tv(r.critical)])
+        out.append([tv(k), rows])
     return out
 
 
 def conv_fans(d):
+    if type(d) is not dict:
+        return T("Type", type(d).__name__)
     out = []
     for k in sorted(d, key=os.fsencode):
         rows = []
+        if type(d[k]) is not list:
+            return T("Type", type(d[k]).__name__)
         for r in d[k]:
-            if tuple(r) != (r.label, r.current):
-                return T("FieldOrderMismatch")
-            rows.append([B(os.fsencode(r.label)), r.current])
-        out.append([B(os.fsencode(k)), rows])
+            if not nt_ok(r, "sfan", ("label", "current")):
+                return T("WrongClass", type(r).__name__)
+            rows.append([tv(r.label), tv(r.current)])
+        out.append([tv(k), rows])
     return out
 
 
 def conv_battery(b):
     if b is None:
         return None
-    if tuple(b) != (b.percent, b.secsleft, b.power_plugged):
-        return T("FieldOrderMismatch")
-    return [fl(b.percent), int(b.secsleft), b.power_plugged]
+    if not nt_ok(b, "sbattery", ("percent", "secsleft", "power_plugged")):
+        return T("WrongClass", type(b).__name__)
+    return [tv(b.percent), tv(b.secsleft), tv(b.power_plugged)]
 
 
 def conv_freq(f):
     if f is None:
         return None
-    if tuple(f) != (f.current, f.min, f.max):
-        return T("FieldOrderMismatch")
-    return [fl(f.current), fl(f.min), fl(f.max)]
+    if not nt_ok(f, "scpufreq", ("current", "min", "max")):
+        return T("WrongClass", type(f).__name__)
+    return [tv(f.current), tv(f.min), tv(f.max)]
 
 
 # ------------------------------------------------------------------ runners
@@ -374,8 +413,8 @@ def run_battery(psutil, case, coq, raw):
     # value is (within rounding) an integer
     m = coq["model"]
     ex = coq.get("secs_exact")
-    if (ex and r.get("t") == "Val" and m.get("t") == "Val" and r["a"][0] and m["a"][0] and r["a"][0][1] != m["a"][0][1]
-            and abs(r["a"][0][1] - m["a"][0][1]) == 1):
+    if (ex and r.get("t") == "Val" and m.get("t") == "Val" and isinstance(r["a"][0], list) and isinstance(m["a"][0], list)
+            and type(r["a"][0][1]) is int and type(m["a"][0][1]) is int and abs(r["a"][0][1] - m["a"][0][1]) == 1):
         q = Fraction(ex["a"][0], ex["a"][1])
         if abs(q - round(q)) <= Fraction(1, 10 ** 9) * max(1, abs(q)):
             r["a"][0][1] = m["a"][0][1]
@@ -410,7 +449,8 @@ def run_cpufreq(psutil, case, coq, raw):
         t.put("%s/cpu%d/online" % (CPU, pos), p[4])
     t.write()
     assert ensure_variant(psutil) == cpufreq_sysfs(case)
-    percpu = outcome(lambda: psutil.cpu_freq(percpu=True), lambda l: [conv_freq(f) for f in l])
+    percpu = outcome(lambda: psutil.cpu_freq(percpu=True),
+                     lambda l: [conv_freq(f) for f in l] if type(l) is list else T("Type", type(l).__name__))
     mean = outcome(lambda: psutil.cpu_freq(), conv_freq)
     # cpuinfo-sourced current frequency goes through int(float * 1000): up to 1 kHz below the exact value
     slack = Fraction(1, 1000) if case.get("cls") in ("cpufreq-sysfs-cpuinfo-cur", "cpufreq-raw") else 0
@@ -442,8 +482,8 @@ def run_cpucount(psutil, case, coq, raw):
         return real(name)
     os.sysconf = fake
     try:
-        a = outcome(lambda: psutil.cpu_count(logical=True))
-        b = outcome(lambda: psutil.cpu_count(logical=False))
+        a = outcome(lambda: psutil.cpu_count(logical=True), tv)
+        b = outcome(lambda: psutil.cpu_count(logical=False), tv)
     finally:
         os.sysconf = real
     return [a, b]
@@ -453,9 +493,9 @@ def run_stat(psutil, case, coq, raw):
     write_proc("stat", case["stat"] if raw else coq["printed"])
 
     def conv_stats(s):
-        if tuple(s) != (s.ctx_switches, s.interrupts, s.soft_interrupts, s.syscalls):
-            return T("FieldOrderMismatch")
-        return [s.ctx_switches, s.interrupts, s.soft_interrupts, s.syscalls]
+        if not nt_ok(s, "scpustats", ("ctx_switches", "interrupts", "soft_interrupts", "syscalls")):
+            return T("WrongClass", type(s).__name__)
+        return [tv(s.ctx_switches), tv(s.interrupts), tv(s.soft_interrupts), tv(s.syscalls)]
     a = outcome(psutil.cpu_stats, conv_stats)
-    b = outcome(psutil.boot_time, fl)
+    b = outcome(psutil.boot_time, tv)
     return [a, snap_best(b, coq["model"][1], (coq.get("spec") or [None, None])[1])]
